@@ -276,6 +276,9 @@ class DocGen:
                 s["additionalProperties"] = r.choice(
                     [{"type": "string"}, {"type": "integer"}]
                     + ([self.ref(r.choice(self.refs_of_kind(("model",))))] if self.refs_of_kind(("model",)) else [])
+                    # a class-bearing INLINE schema: the model gets a child class <Model>AdditionalProperty of its own
+                    + ([{"type": "object", "properties": {"note": {"type": "string"}, "count": {"type": "integer"}}}] if self.on("inline_objects") and depth < 2 else [])
+                    + ([{"type": "string", "enum": ["red", "Green", "teal"]}] if self.on("enums") and depth < 2 else [])
                 )
             elif a < 0.6:
                 s["additionalProperties"] = r.choice([True, {}, {}])  # ({}: the empty schema, spelled out)
@@ -688,7 +691,7 @@ class DocGen:
             if k in ("json", "plusjson"):
                 mt = "application/json" if k == "json" else r.choice(["application/vnd.sim+json", "application/merge-patch+json"])
                 if self.on("media_type_params") and r.random() < 0.3:
-                    mt += r.choice(["; charset=utf-8", "; version=2", ";profile=sim"])
+                    mt += r.choice(["; charset=utf-8", "; version=2", ";profile=sim", " ; charset=utf-8", ";  version=2", "\t; profile=sim"])  # (optional whitespace around ';' is legal, RFC 9110)
                 elif k == "json" and "application/json" in inv and r.random() < 0.5:
                     mt = inv["application/json"]
                 if len(chosen) > 1:
@@ -759,7 +762,7 @@ class DocGen:
         if k == "json" and custom.get("application/json") and r.random() < 0.5:
             mt = r.choice(custom["application/json"])  # a custom media type that the configuration maps to JSON
         if self.on("media_type_params") and r.random() < 0.25 and mt not in ov:
-            mt += r.choice(["; charset=utf-8", "; version=2"])
+            mt += r.choice(["; charset=utf-8", "; version=2", " ; charset=utf-8", " ;version=2"])
         models = self.refs_of_kind(("model", "allof"))
         c = r.random()
         if models and c < 0.45:
